@@ -102,8 +102,7 @@ def render_qua(ab, meta=None):
 SM_TYPE = {3: "dance-threepanel", 4: "dance-single", 6: "dance-solo", 7: "kb7-single", 8: "dance-double"}
 
 
-def render_sm(ab, meta=None):
-    meta = meta or {}
+def sm_notes_block(ab, meta, difficulty="Hard", val=9):
     keys = ab["keys"]
     n_meas = max(ab["n_meas"], max([(q1 if q1 is not None else q0) for _, q0, q1 in ab["notes"]] + [0]) // 16 + 1)
     rows = [["0"] * keys for _ in range(16 * n_meas)]
@@ -116,11 +115,17 @@ def render_sm(ab, meta=None):
     measures = []
     for m in range(n_meas):
         measures.append("\n".join("".join(r) for r in rows[16 * m:16 * m + 16]))
+    return f"#NOTES:\n     {SM_TYPE[keys]}:\n     {meta.get('version', 'desc')}:\n     {difficulty}:\n     {val}:\n     0,0,0,0,0:\n" + "\n,\n".join(measures) + "\n;\n"
+
+
+def render_sm(ab, meta=None):
+    """ab["extra"]: further charts of the same file (own key count and notes; tempo and offset belong to the file)."""
+    meta = meta or {}
     bpms = ",".join(f"{4 * m}.000={v}" for m, v in ab["tempo"])
     return (f"#TITLE:{meta.get('title', 'Title')};\n#SUBTITLE:;\n#ARTIST:{meta.get('artist', 'Artist')};\n#TITLETRANSLIT:;\n#SUBTITLETRANSLIT:;\n#ARTISTTRANSLIT:;\n"
             f"#GENRE:;\n#CREDIT:{meta.get('creator', 'me')};\n#BANNER:;\n#BACKGROUND:bg.png;\n#LYRICSPATH:;\n#CDTITLE:;\n#MUSIC:audio.mp3;\n"
             f"#OFFSET:{-ab['t0'] / 1000:.6f};\n#SAMPLESTART:0.000;\n#SAMPLELENGTH:10.000;\n#SELECTABLE:YES;\n#BPMS:{bpms};\n#STOPS:;\n#BGCHANGES:;\n#FGCHANGES:;\n"
-            f"#NOTES:\n     {SM_TYPE[keys]}:\n     {meta.get('version', 'desc')}:\n     Hard:\n     9:\n     0,0,0,0,0:\n" + "\n,\n".join(measures) + "\n;\n")
+            + sm_notes_block(ab, meta) + "".join(sm_notes_block(dict(e, n_meas=ab["n_meas"]), meta, d, v) for e, (d, v) in zip(ab.get("extra", []), [("Easy", 3), ("Medium", 6), ("Challenge", 12)])))
 
 
 B36 = "0123456789ABCDEFGHIJKLMNOPQRSTUVWXYZ"
